@@ -865,6 +865,95 @@ def parse_simple(p):
     return alt()
 
 
+def parse_full(p):
+    """parse the pattern families used by the targeted streams into the generator's AST: literals, '.', ^, $,
+    [..] with single characters, (..), (?:..), |, back-references, and the quantifiers * + ? {n} {n,} {n,m} with
+    an optional reluctant marker"""
+    pos = 0
+    ng = [0]
+
+    def atom():
+        nonlocal pos
+        c = p[pos]
+        if c == "(":
+            cap = not p.startswith("(?:", pos)
+            pos += 1 if cap else 3
+            me = 0
+            if cap:
+                ng[0] += 1
+                me = ng[0]
+            body = alt()
+            if pos >= len(p) or p[pos] != ")":
+                raise ValueError("unbalanced")
+            pos += 1
+            return ("grp", cap, body, me)
+        if c == "[":
+            j = p.index("]", pos)
+            items = [("c", x) for x in p[pos + 1:j]]
+            pos = j + 1
+            return ("cls", False, items, None)
+        if c == "\\":
+            j = pos + 1
+            n = int(p[j])
+            j += 1
+            while j < len(p) and p[j].isdigit() and int(str(n) + p[j]) <= ng[0]:
+                n = int(str(n) + p[j])
+                j += 1
+            pos = j
+            return ("backref", n)
+        pos += 1
+        if c == ".":
+            return ("dot",)
+        if c == "^":
+            return ("bol",)
+        if c == "$":
+            return ("eol",)
+        return ("lit", c)
+
+    def piece():
+        nonlocal pos
+        a = atom()
+        if pos < len(p) and p[pos] in "*+?{":
+            if p[pos] == "{":
+                j = p.index("}", pos)
+                body = p[pos + 1:j]
+                sp = p[pos:j + 1]
+                if "," in body:
+                    lo, hi = body.split(",")
+                    mn, mx = int(lo), (int(hi) if hi else None)
+                else:
+                    mn = mx = int(body)
+                pos = j + 1
+            else:
+                sp = p[pos]
+                mn, mx = {"*": (0, None), "+": (1, None), "?": (0, 1)}[sp]
+                pos += 1
+            greedy = True
+            if pos < len(p) and p[pos] == "?":
+                greedy = False
+                pos += 1
+            return ("rep", a, mn, mx, greedy, sp)
+        return a
+
+    def seq():
+        items = []
+        while pos < len(p) and p[pos] not in "|)":
+            items.append(piece())
+        return ("seq", items)
+
+    def alt():
+        nonlocal pos
+        bs = [seq()]
+        while pos < len(p) and p[pos] == "|":
+            pos += 1
+            bs.append(seq())
+        return bs[0] if len(bs) == 1 else ("alt", bs)
+    r = alt()
+    if pos != len(p):
+        raise ValueError("trailing input")
+    return r
+
+
 def c19_streams(ctx):
     r = ctx.rnd
     gs = []
